@@ -175,7 +175,7 @@ fn alphabet(d: u64) -> Op {
 }
 
 fn depth(t: Tier) -> u32 {
-    t.pick(6, 7)
+    t.pick(6, 8)
 }
 
 fn enum_decode(t: Tier, mut i: u64) -> Vec<Op> {
@@ -231,7 +231,7 @@ fn check_rand(c: &RandCase, st: &mut Stats) -> Result<(), String> {
 pub fn property() -> Property {
     Property {
         id: "C15",
-        rule: "enumerated: every history of depth 5 (quick) / 7 (thorough) over 14 operations {successful encap with A6, B6, A3, B3, broadcast, explicit re-use; failing encap with A6 / B6; reset; disable; enable; enable-with-max 1, 2, 255}; generated: histories of up to 40/120 operations incl. bursts of 200..300 equal labels (so 255 consecutive re-uses and the counter at 255 are reached), max N in 0..=255, encap complete / first fragment / encap_ext mixed. oracle on the emitted start/complete packets (label type read from the wire): no substitution while disabled; never more than N consecutive substituted packets (N >= 1; audit counter reset at every settings change); first addressed packet after a reset or an emitted broadcast packet carries its full label; a substitution only when the preceding emitted start/complete packet effectively carried the identical label. non-trivial = history with >= 1 substitution and >= 1 of {failed call, settings change, reset, broadcast}",
+        rule: "enumerated: every history of depth 6 (quick) / 8 (thorough) over 14 operations {successful encap with A6, B6, A3, B3, broadcast, explicit re-use; failing encap with A6 / B6; reset; disable; enable; enable-with-max 1, 2, 255}; generated: histories of up to 40/120 operations incl. bursts of 200..300 equal labels (so 255 consecutive re-uses and the counter at 255 are reached), max N in 0..=255, encap complete / first fragment / encap_ext mixed. oracle on the emitted start/complete packets (label type read from the wire): no substitution while disabled; never more than N consecutive substituted packets (N >= 1; audit counter reset at every settings change); first addressed packet after a reset or an emitted broadcast packet carries its full label; a substitution only when the preceding emitted start/complete packet effectively carried the identical label. non-trivial = history with >= 1 substitution and >= 1 of {failed call, settings change, reset, broadcast}",
         assumptions: &["a packet for which the caller passed Label::ReUse is the caller's decision: neither counted in a run nor ending it"],
         parts: vec![
             Box::new(EnumPart {
@@ -246,7 +246,7 @@ pub fn property() -> Property {
             Box::new(GenPart {
                 name: "random-long-histories",
                 rule: "see property rule",
-                cases: (600_000, 2_000_000),
+                cases: (600_000, 10_000_000),
                 fuzz_decode: Some(crate::fuzzdec::c15_case),
                 strategy: rand_strategy,
                 check: check_rand,
